@@ -101,6 +101,13 @@ type frame struct {
 	info     *types.Info
 }
 
+func (f *frame) declOf() ast.Node {
+	if f.fi != nil {
+		return f.fi.Decl
+	}
+	return nil
+}
+
 type Ctx struct {
 	parent *Ctx
 	label  string
@@ -523,7 +530,7 @@ func (e *Exec) numberCalls(root ast.Node, info *types.Info) {
 		if !ok {
 			return true
 		}
-		if callee := e.calleeOf(c, info); callee != nil && inlinable(callee) {
+		if callee := e.calleeOf(c, info); callee != nil {
 			cnt[callee.Name]++
 			e.callOrd[c] = fmt.Sprintf("%s#%d", callee.Name, cnt[callee.Name])
 		}
